@@ -125,9 +125,12 @@ func runC09(w *World, r *Report, tier string) {
 		// no whole-state store may precede a successful resumption in Session.resume
 		if w.ownerKey(a.Fn) == "xmpp.(*Session).resume" {
 			toTrue := false
-			if err := walkPaths(after(a.Instr), nil, nil, 50000, func(path []ssa.Instruction, end pathEnd) {
+			if err := walkPaths(entryLoc(w.ownerFn(a.Fn)), nil, nil, 100000, func(path []ssa.Instruction, end pathEnd) {
 				ret, ok := path[len(path)-1].(*ssa.Return)
 				if !ok || len(ret.Results) != 1 {
+					return
+				}
+				if countOn(path, func(in ssa.Instruction) bool { return in == a.Instr }) == 0 {
 					return
 				}
 				if b, isC := boolConst(rres(path, ret)[0]); !isC || b {
